@@ -565,6 +565,13 @@ def family_45():
     end3 = ['int', 0.02, [1.0, 0.6, 1.2], [], [0.0] * 3, [0.5] * 3, [0, 0, 0]]
     out.append(b3s + [['pulse', 1, [0.25, 0.0]], ['pulse', 2, [0.0, 0.5]], end3])
     out.append(b3s + [['pulse', 2, [0.0, 0.5]], ['pulse', 1, [0.25, 0.0]], end3])
+    # a pulse into a deme at the very instant a child branches off it (the child carries the pulsed ancestry), for both destinations
+    for dest in (0, 1):
+        for parent in (0, 1):
+            out.append(base + [['pulse', dest, [0.25]], ['split', parent], end3])
+    # a cyclic reordering of three populations (not its own inverse) between two integrations
+    out.append(b3s + [['reorder', [1, 2, 0]], ['int', 0.02, [1.2, 1.0, 0.6], [[[0, 1], 0.5]], [0.0] * 3, [0.5] * 3, [0, 0, 0]]])
+    out.append(b3s + [['reorder', [2, 0, 1]], ['int', 0.02, [0.6, 1.2, 1.0], [[[0, 1], 0.5]], [0.0] * 3, [0.5] * 3, [0, 0, 0]]])
     # a fifth population founded by admixture, with every way of spreading unequal fractions over the four parents' slots
     for props in ([0.25, 0.25, 0.0], [0.0, 0.25, 0.5], [0.5, 0.0, 0.0], [0.125, 0.0, 0.25]):
         out.append(b4f + [['int', 0.02, [1.0, 0.6, 1.2, 0.8], [], [0.0] * 4, [0.5] * 4, [0] * 4], ['admix_new', props],
